@@ -11,9 +11,13 @@ From XV Require Import lib.Bytes gen.NegTables C04.Model C04.Generic C04.Structu
 
 (* ---- A nil error is returned only for a session whose every executed step succeeded:
    for every configuration, plan (any faults, any cancellation), scripts and callback values,
-   in a run that returns Ok every read and every write succeeded, every callback (Negotiate of
-   a custom feature, mechanism Step, bind callback) returned no error and no ctx test saw a
-   cancelled context. *)
+   in a run that returns Ok every read and every write succeeded, every callback that was
+   executed - the List step (receiver) and the Parse step (initiator) of a custom feature,
+   required or voluntary, the Negotiate step of a custom feature, a mechanism Step, the bind
+   callback - returned no error ([clean]: every [ECall v] of the trace has [sval_err v =
+   false]) and no ctx test saw a cancelled context. (A built-in feature's Negotiate is a
+   program of the model: when it fails the run is not Ok, there being no construct that
+   catches a failure.) *)
 Theorem C04_nil_error_means_all_steps_ok :
   forall cfg pl bits clear tls calls w,
     run cfg pl bits clear tls calls = (ROk tt, w) -> all_steps_ok (w_trace w).
@@ -43,9 +47,9 @@ Print Assumptions C04_failed_step_mask_not_applied.
    verdict, cancellation instant and every k smaller than the number of operations the
    un-faulted run performs: the cut run does not return Ok, and its Ready bit is clear. *)
 Theorem C04_cut_fails_closed :
-  forall cfg c hs bits clear tls calls k ru wu rc wc,
-    run cfg (mkPlan FNone c hs) bits clear tls calls = (ru, wu) ->
-    run cfg (mkPlan (FCut k) c hs) bits clear tls calls = (rc, wc) ->
+  forall cfg c e d hs bits clear tls calls k ru wu rc wc,
+    run cfg (mkPlan FNone c e d hs) bits clear tls calls = (ru, wu) ->
+    run cfg (mkPlan (FCut k) c e d hs) bits clear tls calls = (rc, wc) ->
     k < w_ops wu ->
     failed rc /\ is_ready (w_bits wc) = false.
 Proof. exact cut_fails_closed. Qed.
@@ -54,39 +58,40 @@ Print Assumptions C04_cut_fails_closed.
 (* ---- Transient: exactly operation k returns an error. Same conclusion: no read or write
    error is swallowed anywhere on a path that ends in a nil error. *)
 Theorem C04_transient_fails_closed :
-  forall cfg c hs bits clear tls calls k ru wu rc wc,
-    run cfg (mkPlan FNone c hs) bits clear tls calls = (ru, wu) ->
-    run cfg (mkPlan (FTransient k) c hs) bits clear tls calls = (rc, wc) ->
+  forall cfg c e d hs bits clear tls calls k ru wu rc wc,
+    run cfg (mkPlan FNone c e d hs) bits clear tls calls = (ru, wu) ->
+    run cfg (mkPlan (FTransient k) c e d hs) bits clear tls calls = (rc, wc) ->
     k < w_ops wu ->
     failed rc /\ is_ready (w_bits wc) = false.
 Proof. exact transient_fails_closed. Qed.
 Print Assumptions C04_transient_fails_closed.
 
-(* ---- Cancellation.
-   (a) The context is cancelled while operation c is blocked on a transport with deadlines:
-   setDeadline makes that operation fail. *)
-Theorem C04_cancel_while_blocked_fails :
-  forall cfg hs bits clear tls calls c ru wu rc wc,
-    run cfg (mkPlan FNone None hs) bits clear tls calls = (ru, wu) ->
-    run cfg (mkPlan (FTransient c) (Some c) hs) bits clear tls calls = (rc, wc) ->
-    c < w_ops wu ->
-    failed rc /\ is_ready (w_bits wc) = false.
-Proof. exact cancel_while_blocked_fails. Qed.
-Print Assumptions C04_cancel_while_blocked_fails.
-
-(* (b) The context is cancelled between two operations (when operation c is entered; the
-   deadline pulse finds nothing to interrupt), under any fault plan f: for every c smaller
-   than the number of operations of the un-cancelled run, the cancelled run does not return
-   Ok and its Ready bit is clear (negotiateSession tests ctx.Err() after every call of the
-   negotiator; Expect, the SASL loop and the component negotiator test it earlier). *)
+(* ---- Cancellation. The context is cancelled at operation c: when c is entered or while it
+   is blocked (entry = true) or when it has succeeded, i.e. between two operations (entry =
+   false); on a transport with deadlines (deadline = true) session.go's setDeadline keeps the
+   deadline expired from then on, so operation c (if it had not completed) and every later
+   operation fail; on any transport every later ctx test (Expect, the SASL loop and List, the
+   component negotiator, negotiateSession after each call of the negotiator) sees it.
+   Under any fault plan f, for every c smaller than the number of operations of the
+   un-cancelled run: the result is an error and the Ready bit is clear. *)
 Theorem C04_cancel_before_step :
-  forall cfg f hs bits clear tls calls c ru wu rc wc,
-    run cfg (mkPlan f None hs) bits clear tls calls = (ru, wu) ->
+  forall cfg f e d hs bits clear tls calls c ru wu rc wc,
+    run cfg (mkPlan f None e d hs) bits clear tls calls = (ru, wu) ->
     c < w_ops wu ->
-    run cfg (mkPlan f (Some c) hs) bits clear tls calls = (rc, wc) ->
+    run cfg (mkPlan f (Some c) e d hs) bits clear tls calls = (rc, wc) ->
     failed rc /\ is_ready (w_bits wc) = false.
 Proof. exact cancel_fails. Qed.
 Print Assumptions C04_cancel_before_step.
+
+(* the instance "operation c was blocked on a transport with deadlines" *)
+Theorem C04_cancel_while_blocked_fails :
+  forall cfg f hs bits clear tls calls c ru wu rc wc,
+    run cfg (mkPlan f None true true hs) bits clear tls calls = (ru, wu) ->
+    c < w_ops wu ->
+    run cfg (mkPlan f (Some c) true true hs) bits clear tls calls = (rc, wc) ->
+    failed rc /\ is_ready (w_bits wc) = false.
+Proof. exact cancel_while_blocked_fails. Qed.
+Print Assumptions C04_cancel_while_blocked_fails.
 
 (* ---- The standard fuel always suffices: no run ends "out of fuel". Hence [failed r] above
    means: an error was returned - or (RStuck) the scripted callback values do not fit the run,
